@@ -195,7 +195,10 @@ def replay(case):
 
 
 def _strategy():
-    return lifecycle_cases(statuses_full=True, respawn_false=True,
+    from hypothesis import strategies as st
+    return lifecycle_cases(
+        extra_watcher_opts=st.fixed_dictionaries(
+            {}, optional={"shell": st.just(True)}),statuses_full=True, respawn_false=True,
                            kill_cmd=True, signal_cmd=True, job_control=True,
                            children=1, set_other=True, rm=True,
                            config=True, ondemand=True, hooks=True,
